@@ -100,21 +100,7 @@ func runC05(p *Prog, r *Report) {
 		}
 		q.StoreClasses(R, rel+"/route-set-only-by-RecvMsg", rel+".context.backtrace", map[string]string{rel + ".(*context).RecvMsg": "set,nil?", rel + ".(*context).SendMsg": "nil"})
 		q.StoreClasses(R, rel+"/pipe-set-only-by-RecvMsg", rel+".context.recvPipe", map[string]string{rel + ".(*context).RecvMsg": "set,nil?", rel + ".(*context).SendMsg": "nil"})
-		R = "C05.3/backtrace-parse"
-		r.Describe(R, "receivers move 4-byte words from body to header until the word with the top bit, dropping short messages")
-		rc := q.Fn(R, rel, "pipe", "receiver")
-		if rc.OK() {
-			okTop := false
-			rc.EachInstrDeep(func(in ssa.Instruction) {
-				if iff, ok := in.(*ssa.If); ok {
-					d := NormAtom(iff.Cond, true)
-					if strings.Contains(d, ".Header[(len(") && strings.Contains(d, ") - 4)] & 128) != 0") {
-						okTop = true
-					}
-				}
-			})
-			r.Check(okTop, R, rel+"/stops-at-top-bit-word", rc.Pos(), "loop ends at the word whose first byte has bit 0x80 (the request id)", "the backtrace loop does not test the top bit of the first byte of the word just moved")
-		}
+		// (the end-of-backtrace test is decided for all four receivers below: top-bit-test-exact)
 	}
 
 	// every receiver that walks a backtrace (cooked and raw, REP and RESPONDENT) ends it at the
